@@ -91,11 +91,12 @@ impl<T: Hazard> Hazard for Nt<T> { fn hazard(&self) -> Option<&'static str> { se
 impl<T: Plain> Plain for Vec<T> { fn plain(&self) -> Option<String> { None } }
 impl<T: Plain> Hazard for Vec<T> {
     fn hazard(&self) -> Option<&'static str> {
+        // (features are ordered by cause: element type, empty elements, then length / escaping)
+        if !self.is_empty() && std::any::type_name::<T>() != std::any::type_name::<String>() { return Some("seq-non-string") }
+        if self.iter().any(|e| e.plain().unwrap_or_default().is_empty()) { return Some("seq-empty-element") }
         if self.len() >= 2 { return Some("seq-len2+") }
         if self.len() == 1 {
             let p = self[0].plain().unwrap_or_default();
-            if std::any::type_name::<T>() != std::any::type_name::<String>() { return Some("seq-len1-non-string") }
-            if p.is_empty() { return Some("seq-len1-empty-element") }
             if refenc::pct_encode(p.as_bytes()) != p { return Some("seq-len1-escaped-element") }
         }
         None
